@@ -261,13 +261,13 @@ pub fn run(run: &Run) {
         "initial states: one term per constructor (images at index 0/1/n and empty); actions: \
          set_atom_name over 21 strings (empty, signed, leading zeros, usize::MAX, overflow, padded, \
          hex, non-ASCII digit, dashed) and push_components over 7 lists (empty, 1, 2, duplicate, \
-         existing element, placeholder, compound); stateright BFS to depth 3 (4 thorough) over the \
+         existing element, placeholder, compound); stateright BFS to depth 3 (5 thorough) over the \
          real term, deduplicated on its canonical form; every transition compared with the \
          reference model (outcome, post-state, get_atom_name; unchanged on Err); distinct = unique \
          canonical states reached",
     );
     run.assume("merging histories with equal canonical form is sound: the mutators and accessors only observe the term value (default hash keys under the hook)");
-    let depth = run.tier.pick(3usize, 4usize);
+    let depth = run.tier.pick(3usize, 5usize);
     run.bound("bfs_depth", json!(depth));
     let inits = inits();
     run.bound("initial_states", json!(inits.len()));
